@@ -4,6 +4,7 @@ package main
 // (that *is* the fault model of C05); the only facts assumed are listed in the doc strings.
 
 import (
+	"fmt"
 	"go/types"
 
 	"golang.org/x/tools/go/ssa"
@@ -192,8 +193,40 @@ func init() {
 		return nil
 	})
 
-	reg("path/filepath.Join", "returns a string", func(fr *Frame, in ssa.Instruction, st *State, args []Value, rt types.Type) Value {
-		return freshStr(fr.p, st, "join")
+	reg("path/filepath.Join", "a function of its arguments (up to 4; content uninterpreted)", func(fr *Frame, in ssa.Instruction, st *State, args []Value, rt types.Type) Value {
+		p := fr.p
+		var parts []*Term
+		if len(args) == 1 {
+			if sl, ok := args[0].(SliceV); ok && sl.Len.IsConst() && sl.Len.ConstVal().IsInt64() && sl.Len.ConstVal().Int64() <= 4 {
+				n := int(sl.Len.ConstVal().Int64())
+				for i := 0; i < n; i++ {
+					parts = append(parts, sTerm(p.loadElem(st, types.Typ[types.String], sl.Ref, BVAdd(sl.Off, BVInt(int64(i), 64)))))
+				}
+			} else if sc, ok := args[0].(Scalar); ok {
+				parts = []*Term{sc.T}
+			}
+		} else if len(args) <= 4 {
+			for _, a := range args {
+				if sc, ok := a.(Scalar); ok {
+					parts = append(parts, sc.T)
+				}
+			}
+			if len(parts) != len(args) {
+				parts = nil
+			}
+		}
+		if len(parts) == 0 {
+			return freshStr(p, st, "join")
+		}
+		var sorts []string
+		for range parts {
+			sorts = append(sorts, SStr)
+		}
+		name := fmt.Sprintf("fp.join%d", len(parts))
+		B.DeclareFun(name, sorts, SStr)
+		r := B.App(name, SStr, parts...)
+		p.assume(True(), p.typeInv(st, types.Typ[types.String], Scalar{r}))
+		return Scalar{r}
 	})
 	reg("path/filepath.Base", "returns a string", func(fr *Frame, in ssa.Instruction, st *State, args []Value, rt types.Type) Value {
 		return freshStr(fr.p, st, "base")
